@@ -163,6 +163,17 @@ class SetWrapper(typing.MutableSet[T]):
             for v in arg:
                 self.add(v)
 
+    @classmethod
+    def _from_iterable(
+        cls, it: typing.Iterable[T]
+    ) -> typing.Set[T]:  # type: ignore[override]
+        # The set operators inherited from the ABCs (&, -, ^, the reflected
+        # forms and the in-place operators built on them) construct their
+        # result with this hook. The result of such an operator is a plain
+        # value, not another owning collection, and subclasses take extra
+        # constructor arguments, so build a built-in set (as __or__ does).
+        return set(it)
+
     # begin functions for ABC
     def __contains__(self, v: object) -> bool:
         return v in self._data
